@@ -129,12 +129,29 @@ func (r *entityResolver) FindGammaByOwnerID(ctx context.Context, ownerID string)
 	return &Gamma{Owner: &Alpha{ID: ownerID, Name: "name-of-" + ownerID}, Note: &n}, nil
 }
 
+func (r *entityResolver) FindEpsilonBySkuAndVariant(ctx context.Context, sku string, variant *string) (*Epsilon, error) {
+	v := "NIL"
+	if variant != nil {
+		v = *variant
+	}
+	if err := r.w.apply("EpsilonBySkuAndVariant:" + sku + "/" + v); err != nil {
+		return nil, err
+	}
+	return &Epsilon{Sku: sku, Variant: variant, Upc: "upc-of-" + sku + "/" + v}, nil
+}
+func (r *entityResolver) FindEpsilonByUpc(ctx context.Context, upc string) (*Epsilon, error) {
+	if err := r.w.apply("EpsilonByUpc:" + upc); err != nil {
+		return nil, err
+	}
+	return &Epsilon{Sku: "sku-of-" + upc, Upc: upc}, nil
+}
+
 var (
 	fedSchema *ast.Schema
 	fedDoc    *ast.QueryDocument
 )
 
-const fedQueryText = `query($r: [_Any!]!) { _entities(representations: $r) { __typename ... on Alpha { id name } ... on Beta { id name } ... on Gamma { note owner { id } } ... on Delta { id size weight } } }`
+const fedQueryText = `query($r: [_Any!]!) { _entities(representations: $r) { __typename ... on Alpha { id name } ... on Beta { id name } ... on Gamma { note owner { id } } ... on Delta { id size weight } ... on Epsilon { sku variant upc } } }`
 
 func fedSetup() {
 	es := NewExecutableSchema(Config{Resolvers: &fedRoot{}})
